@@ -193,22 +193,38 @@ pub fn str_event(s: &str, model: bool) -> String {
         if guarded(move || (r2.rank_pairs().len(), r2.orphan_card_pairs().len())).is_none() {
             split = "panic";
         }
-        // hand the parsed range to the evaluator, beside a fixed second range, for two board positions
-        let r3 = r.clone();
+        // hand the parsed range to the evaluator, beside a fixed second range, for two board positions: on a fixed
+        // flop, and on a flop made of the other three suits of the rank of the range's first card (so that a value
+        // that should not exist - the same card twice, a rank five times - meets the board)
         let other: HandRange = vec![(crate::proj::pair(4, 9), 0.5f32), (crate::proj::pair(0, 13), 1.0f32)].into_iter().collect();
+        let first = {
+            let mut v: Vec<(usize, usize)> = r.card_pairs().keys().map(pair_ids).collect();
+            v.sort();
+            // a combo made of one card twice (it should not exist) is the most interesting one to put on a hostile board
+            v.iter().find(|(a, b)| a == b).copied().or(v.first().copied())
+        };
+        let mut flops = vec![[40usize, 26, 49]];
+        if let Some((a, _)) = first {
+            let rk = a / 4;
+            let f: Vec<usize> = (0..4).map(|s| 4 * rk + s).filter(|c| *c != a).collect();
+            flops.push([f[0], f[1], f[2]]);
+        }
+        let r3 = r.clone();
         let e = guarded(move || {
-            let board = [Some(crate::proj::card(40)), Some(crate::proj::card(26)), Some(crate::proj::card(49)), None, None];
-            let mut ev = espada::evaluator::FlopExhaustiveEvaluator::new(&board, &vec![r3, other]);
-            ev.scope(0, 1, 0, 3);
             let mut v = vec![];
-            for sd in ev.into_iter().take(12) {
-                let mut cards: Vec<usize> = sd.board().iter().map(card_id).collect();
-                for p in sd.players() {
-                    let (x, y) = pair_ids(&p.hole_cards());
-                    cards.push(x);
-                    cards.push(y);
+            for f in flops {
+                let board = [Some(crate::proj::card(f[0])), Some(crate::proj::card(f[1])), Some(crate::proj::card(f[2])), None, None];
+                let mut ev = espada::evaluator::FlopExhaustiveEvaluator::new(&board, &vec![r3.clone(), other.clone()]);
+                ev.scope(0, 1, 0, 3);
+                for sd in ev.into_iter().take(12) {
+                    let mut cards: Vec<usize> = sd.board().iter().map(card_id).collect();
+                    for p in sd.players() {
+                        let (x, y) = pair_ids(&p.hole_cards());
+                        cards.push(x);
+                        cards.push(y);
+                    }
+                    v.push(format!("[{},{}]", list(&cards), wbits(sd.probability().to_bits())));
                 }
-                v.push(format!("[{},{}]", list(&cards), wbits(sd.probability().to_bits())));
             }
             v
         });
@@ -244,7 +260,7 @@ fn all_strings(maxlen: usize) -> Vec<String> {
 }
 
 /// shape-valid tokens over five ranks with weight suffixes, and single-character edits of them
-fn shaped(rng: &mut Rng, edits: usize) -> Vec<String> {
+fn shaped(rng: &mut Rng, edits: usize, sfx_len: usize) -> Vec<String> {
     let ranks = ['A', 'K', '9', '3', '2'];
     let sfx = ["", ":0", ":1", ":0.5", ":1.0", ":1.5", ":1.75", ":0.99999", ":1.00000001", ":00", ":2", ":1.", ":.5", ":1.0x", ":-0", ":0.5.5", ":1e0"];
     let mut v = vec![];
@@ -279,6 +295,29 @@ fn shaped(rng: &mut Rng, edits: usize) -> Vec<String> {
         out.push(format!("AsAs{}", s));
         out.push(format!("A9s-A3s{}", s));
         out.push(format!("KK+{}", s));
+    }
+    // the weight grammar, systematically: every suffix ':' + up to `sfx_len` characters over a small alphabet, and a
+    // list of odd literals, on representatives of each of the seven token shapes
+    let reps = ["AA-KK", "99-33", "AKs-A9s", "K9o-K3o", "KK+", "22+", "A9s+", "K3o+", "32s+", "AA", "22", "AKs", "93o", "AsKs", "2c3d"];
+    let odd = [":100", ":10", ":110", ":1000", ":1x0", ":1-0", ":1:0", ":1.0.0", ":10.0", ":01", ":1e1", ":1e9", ":inf", ":NaN", ":nan", ":+1", ":-1", ":1.", ":.1",
+               ":1.0e1", ":0.5e3", ":1_0", ":1 0", ":0.9999999999999999999", ":1.0000000000000000000001", ":0.00000000000000000000000000000000000000000000001", ":9", ":1.9", ":0x1"];
+    let sa = ['0', '1', '5', '.', ':', 'x', '-', 'e'];
+    let mut sfxs: Vec<String> = odd.iter().map(|s| s.to_string()).collect();
+    let mut layer = vec![String::new()];
+    for _ in 0..sfx_len {
+        let mut next = vec![];
+        for s in &layer {
+            for c in sa {
+                next.push(format!("{}{}", s, c));
+            }
+        }
+        sfxs.extend(next.iter().map(|s| format!(":{}", s)));
+        layer = next;
+    }
+    for r in reps {
+        for s in &sfxs {
+            out.push(format!("{}{}", r, s));
+        }
     }
     let pool: Vec<char> = ALPHA.iter().cloned().chain(['Q', 'd', 'c', '7', 'ß', '中']).collect();
     for _ in 0..edits {
@@ -323,7 +362,7 @@ pub fn record_c09(args: &Args, mut out: Out) -> usize {
     let mut rng = Rng::new(args.num("seed", 1));
     let maxlen = args.num("maxlen", 3) as usize;
     let mut inputs: Vec<(String, bool)> = all_strings(maxlen).into_iter().map(|s| (s, true)).collect();
-    for s in shaped(&mut rng, args.num("edits", 4000) as usize) {
+    for s in shaped(&mut rng, args.num("edits", 4000) as usize, args.num("sfx-len", 3) as usize) {
         let m = s.chars().all(|c| ALPHA.contains(&c));
         inputs.push((s, m));
     }
